@@ -155,6 +155,8 @@ type LT struct {
 	opaque  map[string]string     // variables of an opaque type -> that type's name
 	poison  map[string]string     // locals whose initialiser is outside the grammar -> reason (an error only if used)
 	depth   int                   // helper inlining depth
+	funcVals map[string]*ast.SelectorExpr // function-valued parameters of an inlined helper bound to method values
+	retHook  func(s *ast.ReturnStmt, k kont) (string, error) // returns of a helper inlined at statement level
 }
 
 func (t *LT) src(n ast.Node) string {
@@ -172,6 +174,11 @@ func (t *LT) errf(n ast.Node, f string, a ...interface{}) error {
 func (t *LT) calleeKey(c *ast.CallExpr) (string, ast.Expr) {
 	switch f := c.Fun.(type) {
 	case *ast.Ident:
+		if fv, ok := t.funcVals[f.Name]; ok {
+			if sl, ok := t.p.Info.Selections[fv]; ok && sl.Kind() == types.MethodVal {
+				return namedName(sl.Recv()) + "." + fv.Sel.Name, fv.X
+			}
+		}
 		if fo, ok := t.p.Info.Uses[f].(*types.Func); ok && fo.Pkg() == t.p.Types {
 			return f.Name, nil
 		}
@@ -576,7 +583,9 @@ func (t *LT) exprP(e ast.Expr) (string, bool, error) {
 				return "", false, t.errf(e, "field %s of the opaque type %s", x.Sel.Name, ot)
 			}
 			if a, ok := t.alias[id.Name]; ok {
-				return t.exprP(&ast.SelectorExpr{X: a, Sel: x.Sel})
+				ns := &ast.SelectorExpr{X: a, Sel: x.Sel}
+				t.p.Info.Types[ns] = t.p.Info.Types[x]
+				return t.exprP(ns)
 			}
 		}
 		sm := t.structOf(x.X)
@@ -1131,6 +1140,14 @@ func terminates(l []ast.Stmt) bool {
 		return true
 	case *ast.BranchStmt:
 		return s.Tok == token.CONTINUE
+	case *ast.BlockStmt:
+		return terminates(s.List)
+	case *ast.IfStmt:
+		// every branch of a complete if / else chain terminates
+		if s.Else == nil || !terminates(s.Body.List) {
+			return false
+		}
+		return terminates([]ast.Stmt{s.Else})
 	}
 	return false
 }
@@ -1195,6 +1212,9 @@ func (t *LT) block(l []ast.Stmt, k kont) (string, error) {
 	case *ast.EmptyStmt:
 		return rest()
 	case *ast.ReturnStmt:
+		if t.retHook != nil {
+			return t.retHook(s, k)
+		}
 		var parts []string
 		for _, r := range s.Results {
 			parts = append(parts, t.src(r))
@@ -1295,6 +1315,9 @@ func (t *LT) block(l []ast.Stmt, k kont) (string, error) {
 		}
 		return "", t.errf(s, "unsupported expression statement %s", t.src(s.X))
 	case *ast.AssignStmt:
+		if out, ok, err := t.inlineErrHelper(s, l, k); ok {
+			return out, err
+		}
 		// x, err := CALL ; if err != nil { ..return }   for a SumCall
 		if len(s.Lhs) == 2 && len(s.Rhs) == 1 && len(l) >= 2 {
 			term, ok := t.fn.SumCalls[t.src(s.Rhs[0])]
@@ -1636,6 +1659,117 @@ func (t *LT) rangeStmt(s *ast.RangeStmt, k kont, rest func() (string, error)) (s
 	return fmt.Sprintf("match loop_fold %s %s %s with\n  | LRet r_ => r_\n  | LNext %s => %s\n  end", step, xs, init, pat, r), nil
 }
 
+// inlineErrHelper handles   x, err := h(args) ; if err != nil { S }  ; REST   where h is an
+// unconfigured function or method of this package returning (T, error): h's body is translated
+// in place; a `return v, nil` of h continues with REST (x bound to v), any other return of h
+// continues with S (err bound to the returned error).  Function-valued parameters of h may be
+// bound to method values (h(t, w.applyUpdate)): calls through them resolve to that method.
+func (t *LT) inlineErrHelper(s *ast.AssignStmt, l []ast.Stmt, k kont) (string, bool, error) {
+	if len(s.Lhs) != 2 || len(s.Rhs) != 1 || len(l) < 2 || t.depth > 3 {
+		return "", false, nil
+	}
+	c, ok := s.Rhs[0].(*ast.CallExpr)
+	if !ok {
+		return "", false, nil
+	}
+	key, recv := t.calleeKey(c)
+	if key == "" || t.cfg.SumCallsBy[key] != "" || t.cfg.Calls[key] != nil || t.fn.Atoms[t.src(c)] != "" || t.fn.SumCalls[t.src(c)] != "" {
+		return "", false, nil
+	}
+	fd := t.p.FuncDecls()[key]
+	x, okx := s.Lhs[0].(*ast.Ident)
+	e, oke := s.Lhs[1].(*ast.Ident)
+	ifs, oki := l[1].(*ast.IfStmt)
+	if fd == nil || fd.Body == nil || !okx || !oke || !oki || ifs.Init != nil || ifs.Else != nil ||
+		t.src(ifs.Cond) != e.Name+" != nil" || !terminates(ifs.Body.List) {
+		return "", false, nil
+	}
+	if fd.Type.Results == nil || fd.Type.Results.NumFields() != 2 {
+		return "", false, nil
+	}
+	// bind the parameters: values by name, method values as function values
+	henv := map[string]string{}
+	hfun := map[string]*ast.SelectorExpr{}
+	bindArg := func(name string, a ast.Expr) error {
+		if sel, ok := a.(*ast.SelectorExpr); ok {
+			if sl, ok := t.p.Info.Selections[sel]; ok && sl.Kind() == types.MethodVal {
+				hfun[name] = sel
+				return nil
+			}
+		}
+		v, err := t.expr(a)
+		if err != nil {
+			return err
+		}
+		if strings.ContainsAny(v, " (") {
+			return fmt.Errorf("argument %s of an inlined helper is not a variable", t.src(a))
+		}
+		henv[name] = v
+		return nil
+	}
+	if fd.Recv != nil && len(fd.Recv.List) == 1 && len(fd.Recv.List[0].Names) == 1 && recv != nil {
+		if err := bindArg(fd.Recv.List[0].Names[0].Name, recv); err != nil {
+			return "", true, err
+		}
+	}
+	i := 0
+	for _, f := range fd.Type.Params.List {
+		for _, n := range f.Names {
+			if i >= len(c.Args) {
+				return "", false, nil
+			}
+			if err := bindArg(n.Name, c.Args[i]); err != nil {
+				return "", true, err
+			}
+			i++
+		}
+	}
+	// the helper shares the caller's state variables (receiver fields); its own locals are fresh
+	cenv, cfun, chook, crecv := t.env, t.funcVals, t.retHook, t.recv
+	callerEnv := func() map[string]string {
+		m := map[string]string{}
+		for kk, v := range cenv {
+			m[kk] = v
+		}
+		return m
+	}
+	t.depth++
+	defer func() { t.depth--; t.env, t.funcVals, t.retHook, t.recv = cenv, cfun, chook, crecv }()
+	t.env, t.funcVals = henv, hfun
+	t.retHook = func(rs *ast.ReturnStmt, rk kont) (string, error) {
+		if len(rs.Results) != 2 {
+			return "", t.errf(rs, "unsupported return of an inlined helper")
+		}
+		hEnv, hFun, hHook := t.env, t.funcVals, t.retHook
+		defer func() { t.env, t.funcVals, t.retHook = hEnv, hFun, hHook }()
+		if t.src(rs.Results[1]) == "nil" {
+			v, err := t.expr(rs.Results[0])
+			if err != nil {
+				return "", err
+			}
+			t.env, t.funcVals, t.retHook = callerEnv(), cfun, chook
+			xv := t.bind(x.Name, x.Pos())
+			r, err := t.block(l[2:], kont{fall: k.fall, cont: k.cont, ret: rk.ret})
+			if err != nil {
+				return "", err
+			}
+			return fmt.Sprintf("let %s := %s in\n  %s", xv, v, r), nil
+		}
+		ev, err := t.expr(rs.Results[1])
+		if err != nil {
+			return "", err
+		}
+		t.env, t.funcVals, t.retHook = callerEnv(), cfun, chook
+		t.env[e.Name] = ev
+		return t.block(ifs.Body.List, kont{fall: k.fall, cont: k.cont, ret: rk.ret})
+	}
+	out, err := t.block(t.normStmts(fd.Body.List), k)
+	if err != nil {
+		return "", true, fmt.Errorf("inlining %s: %v", key, err)
+	}
+	return out, true, nil
+}
+
 // aliasOf recognises  &X[I]
 func aliasOf(e ast.Expr) ast.Expr {
 	if u, ok := e.(*ast.UnaryExpr); ok && u.Op == token.AND {
@@ -1673,7 +1807,9 @@ func (t *LT) assign(s *ast.AssignStmt, k kont, rest func() (string, error)) (str
 			if id, ok := sel.X.(*ast.Ident); ok {
 				if a, ok := t.alias[id.Name]; ok {
 					c := *s
-					c.Lhs = []ast.Expr{&ast.SelectorExpr{X: a, Sel: sel.Sel}}
+					ns := &ast.SelectorExpr{X: a, Sel: sel.Sel}
+					t.p.Info.Types[ns] = t.p.Info.Types[sel]
+					c.Lhs = []ast.Expr{ns}
 					return t.assign(&c, k, rest)
 				}
 			}
